@@ -577,6 +577,7 @@ func (sc *c09Scenario) Check(res *simrt.Result) []Violation {
 		}
 	}
 	got := map[string]int{}
+	gotAll := map[string]int{} // including reports made after the pool was closed (a job without a result, submitted through Invoke, may run that late)
 	startOf := map[string]uint64{}
 	for _, j := range sc.jobs {
 		if j.panicVal != "" && len(j.starts) > 0 {
@@ -584,6 +585,7 @@ func (sc *c09Scenario) Check(res *simrt.Result) []Violation {
 		}
 	}
 	for _, hd := range sc.handler {
+		gotAll[hd.val]++
 		if sc.closeAt != 0 && hd.at > sc.closeAt {
 			continue
 		}
@@ -604,7 +606,7 @@ func (sc *c09Scenario) Check(res *simrt.Result) []Violation {
 		}
 	}
 	for v := range want {
-		if got[v] == 0 && !sc.NilHandler {
+		if gotAll[v] == 0 && !sc.NilHandler {
 			add("panic-handler", "not-reported", fmt.Sprintf("job panic %q never reached the panic handler", v))
 		}
 	}
